@@ -50,11 +50,8 @@ theorem others_untouched {p p' : Pool} (hI : Inv p) (op : Op) (hpre : pre op p) 
 
 /-! ### histories -/
 
-/-- the states reachable from the empty pool by a history of operations each executed under its precondition,
-    together with the specification store the same history produces -/
-inductive Reach (L : Nat) : Store → Pool → Prop
-  | init : Reach L Store.empty (Pool.init L)
-  | step {s : Store} {p p' : Pool} (op : Op) : Reach L s p → pre op p → op.run p = .ok () p' → Reach L (step s op) p'
+-- `Pool.Reach L s p` (Lemmas/PoolStep.lean): `p` is reached from the empty pool by a history of operations, each
+-- executed under its precondition and completed, and `s` is the specification store the same history produces.
 
 /-- **the invariant holds after every history** -/
 theorem inv_reachable {L : Nat} (hL : 0 < L) {s : Store} {p : Pool} (h : Reach L s p) : Inv p ∧ p.failAt = none := by
